@@ -77,6 +77,13 @@ def handleFD (st : St) (n : Nat) (toks : List String) : Result := Id.run do
   if calls.any (fun c => c.startsWith "WRONGID") then
     let r := fail st n "C13" "a call named another log ID than the one configured"
     st := r.st; outs := outs ++ r.out
+  -- the real witness behind the adapter: "nothing witnessed yet" may be reported only when nothing is stored; a
+  -- failed read of the witness's storage is an error, not first use (otherwise the feeder asks for the step 0 -> n)
+  if (get "witness").getD "" == "real" then
+    let ws := ((get "wsize").getD "0").toInt?.getD 0
+    if ws ≥ 0 && script.any (fun a => a.get == .notExist) then
+      let r := fail st n "C13" s!"the witness holds a checkpoint of size {ws} but its adapter answered 'no checkpoint yet' (failures {(get "pattern").getD ""}): the feeder is led to ask for an unjustified step from size 0"
+      st := r.st; outs := outs ++ r.out
   -- walk the calls attempt by attempt
   let mut att : Nat := 0
   let mut latestSize : Option Nat := none     -- size the witness reported in this attempt
